@@ -1,55 +1,6 @@
 (* What each reaction does to the run component Rn. *)
 From AJ Require Import Common.Util Run.RModel Run.RFacts.
 
-Definition same_but_q (a b : rst) : Prop :=
-  ph b = ph a /\ pend b = pend a /\ seen b = seen a /\ ndone b = ndone a /\ expi b = expi a
-  /\ tbeg b = tbeg a /\ fto b = fto a /\ fcr b = fcr a /\ rcanc b = rcanc a.
-
-Lemma same_but_q_refl a : same_but_q a a.
-Proof. unfold same_but_q. tauto. Qed.
-
-Lemma same_but_q_trans a b d : same_but_q a b -> same_but_q b d -> same_but_q a d.
-Proof. unfold same_but_q. intuition congruence. Qed.
-
-Lemma Rn_setJ s j v : Rn (setJ s j v) = Rn s. Proof. reflexivity. Qed.
-Lemma Rn_setH s j v : Rn (setH s j v) = Rn s. Proof. reflexivity. Qed.
-Lemma Rn_setS s j v : Rn (setS s j v) = Rn s. Proof. reflexivity. Qed.
-Lemma Rn_mapJ f l s : Rn (mapJ f l s) = Rn s. Proof. reflexivity. Qed.
-Lemma Rn_mapH f l s : Rn (mapH f l s) = Rn s. Proof. reflexivity. Qed.
-Lemma Rn_setNow s t : Rn (setNow s t) = Rn s. Proof. reflexivity. Qed.
-Lemma Rn_clear_cp s n : Rn (clear_cp s n) = Rn s.
-Proof. unfold clear_cp. destruct (rootb n); reflexivity. Qed.
-Lemma Rn_clear_hcp s n : Rn (clear_hcp s n) = Rn s. Proof. reflexivity. Qed.
-Lemma Rn_hdone n r s : Rn (hdone n r s) = Rn s. Proof. reflexivity. Qed.
-
-Lemma Rn_shutdown_start c n i s : Rn (fst (shutdown_start c n i s)) = Rn s.
-Proof.
-  unfold shutdown_start. destruct (did (Sd s n)); [reflexivity|].
-  destruct (members c n); reflexivity.
-Qed.
-
-Lemma Rn_bump_q_q s p f m : same_but_q (Rn s m) (Rn (bump_q s p f) m).
-Proof.
-  unfold bump_q. cbn [Rn setR]. unfold upd.
-  destruct (Nat.eqb_spec m p) as [->|H]; [|apply same_but_q_refl].
-  unfold same_but_q. cbn. tauto.
-Qed.
-
-Lemma Rn_job_leave_q c n x s m : same_but_q (Rn s m) (Rn (job_leave c n x s) m).
-Proof.
-  unfold job_leave. destruct (Nat.eqb n 0); [apply same_but_q_refl|].
-  cbn [Rn setR setJ]. unfold upd.
-  destruct (Nat.eqb_spec m (parent c n)) as [->|H]; [|apply same_but_q_refl].
-  unfold same_but_q. cbn. tauto.
-Qed.
-
-Lemma ph_set_phase s n p m :
-  Rn (set_phase s n p) m =
-  if Nat.eqb m n then mkRst p (pend (Rn s n)) (seen (Rn s n)) (ndone (Rn s n)) (qsz (Rn s n))
-                            (expi (Rn s n)) (tbeg (Rn s n)) (fto (Rn s n)) (fcr (Rn s n)) (rcanc (Rn s n))
-  else Rn s m.
-Proof. unfold set_phase. cbn [Rn setR]. unfold upd. destruct (Nat.eqb m n); reflexivity. Qed.
-
 (* [actor e m]: e is a control event of the run of scheduler m *)
 Definition actor (e : event) (m : nat) : Prop :=
   match e with
@@ -82,55 +33,37 @@ Inductive reff (c : cfg) (s s' : state) (m : nat) (act : Prop) : Prop :=
     ph (Rn s m) <> PIdle -> ph (Rn s' m) <> PIdle ->
     (m <> 0 -> run_post s' m) ->
     (forall y, In y (pend (Rn s' m)) -> In y (pend (Rn s m)) \/ In y (members c m)) ->
+    (ph (Rn s m) <> PMain -> ph (Rn s' m) <> PMain) ->
+    (ph (Rn s' m) = PCTidy \/ rcanc (Rn s' m) = true ->
+     (ph (Rn s m) = PCTidy \/ rcanc (Rn s m) = true) \/ cp (Jb s m) = true) ->
     reff c s s' m act.
-
-Lemma Rn_exit_main c n w p s m :
-  Rn (fst (exit_main c n w p s)) m =
-  Rn (set_phase s n (match p with [] => PShut w | _ => PTidy w end)) m.
-Proof.
-  unfold exit_main. destruct p as [|a p].
-  - destruct (shutdown_start c n true (set_phase s n (PShut w))) as [s1 o] eqn:E.
-    cbn [fst]. change s1 with (fst (s1, o)). rewrite <- E, Rn_shutdown_start. reflexivity.
-  - cbn [fst]. rewrite !ph_set_phase. rewrite Rn_mapJ. reflexivity.
-Qed.
-
-Lemma Rn_end_cancelled_q c n s m : m <> n ->
-  same_but_q (Rn s m) (Rn (fst (end_cancelled c n s)) m).
-Proof.
-  intros H. unfold end_cancelled. cbn [fst].
-  eapply same_but_q_trans; [|apply Rn_job_leave_q].
-  rewrite ph_set_phase. apply Nat.eqb_neq in H. rewrite H. apply same_but_q_refl.
-Qed.
-
-Lemma Rn_end_cancelled_n c n s :
-  ph (Rn (fst (end_cancelled c n s)) n) = POver /\
-  pend (Rn (fst (end_cancelled c n s)) n) = pend (Rn s n).
-Proof.
-  unfold end_cancelled. cbn [fst].
-  pose proof (Rn_job_leave_q c n Cancelled (set_phase s n POver) n) as (H1 & H2 & _).
-  rewrite H1, H2, ph_set_phase, Nat.eqb_refl. cbn. auto.
-Qed.
-
-Lemma Rn_finish_run_q c n w r cu s m : m <> n ->
-  same_but_q (Rn s m) (Rn (fst (finish_run c n w r cu s)) m).
-Proof.
-  intros H. unfold finish_run. cbn [fst].
-  eapply same_but_q_trans; [|apply Rn_job_leave_q].
-  rewrite Rn_setR_other by exact H. apply same_but_q_refl.
-Qed.
-
-Lemma Rn_finish_run_n c n w r cu s :
-  ph (Rn (fst (finish_run c n w r cu s)) n) = POver /\
-  pend (Rn (fst (finish_run c n w r cu s)) n) = pend (Rn s n).
-Proof.
-  unfold finish_run. cbn [fst].
-  match goal with |- context [job_leave c n ?x ?S0] =>
-    pose proof (Rn_job_leave_q c n x S0 n) as (H1 & H2 & _) end.
-  rewrite H1, H2, Rn_setR_same. cbn. auto.
-Qed.
 
 Lemma neq_vac (m n : nat) (P : Prop) : m <> n -> m = n -> P.
 Proof. intros H E. contradiction. Qed.
+
+
+Lemma rcanc_end_cancelled c n s :
+  rcanc (Rn (fst (end_cancelled c n s)) n) = rcanc (Rn s n).
+Proof.
+  unfold end_cancelled. cbn [fst].
+  pose proof (Rn_job_leave_q c n Cancelled (set_phase s n POver) n) as (_ & _ & _ & _ & _ & _ & _ & _ & H).
+  rewrite H, ph_set_phase, Nat.eqb_refl. reflexivity.
+Qed.
+
+Lemma rcanc_finish_run c n w r cu s :
+  rcanc (Rn (fst (finish_run c n w r cu s)) n) = rcanc (Rn s n).
+Proof.
+  unfold finish_run. cbn [fst].
+  match goal with |- context [job_leave c n ?x ?S0] =>
+    pose proof (Rn_job_leave_q c n x S0 n) as (_ & _ & _ & _ & _ & _ & _ & _ & H) end.
+  rewrite H, Rn_setR_same. reflexivity.
+Qed.
+
+Lemma cmode_same (s s' : state) (m : nat) (P : Prop) :
+  ph (Rn s' m) <> PCTidy -> rcanc (Rn s' m) = rcanc (Rn s m) ->
+  ph (Rn s' m) = PCTidy \/ rcanc (Rn s' m) = true ->
+  (ph (Rn s m) = PCTidy \/ rcanc (Rn s m) = true) \/ P.
+Proof. intros H1 H2 [H|H]; [contradiction|]. left. right. rewrite <- H2. exact H. Qed.
 
 Lemma reff_begin c s n m : wf c = true -> sched_id c n = true ->
   (if rootb n then match ph (Rn s n) with PIdle => true | _ => false end
@@ -190,12 +123,19 @@ Proof.
   set (r := Rn s n). set (pend' := diff (pend r) d).
   assert (Hsub : forall y, In y pend' -> In y (pend (Rn s n))).
   { intros y Hy. apply In_diff in Hy. tauto. }
-  assert (Hexit : forall w v, pend v = pend' ->
+  assert (Hexit : forall w v, pend v = pend' -> rcanc v = rcanc (Rn s n) ->
             reff c s (fst (exit_main c n w pend' (setR s n v))) m (m = n)).
-  { intros w v Hv. destruct (Nat.eq_dec m n) as [->|Hmn].
+  { intros w v Hv Hrc. destruct (Nat.eq_dec m n) as [->|Hmn].
     - assert (Ephn : ph (Rn (fst (exit_main c n w pend' (setR s n v))) n) =
                      match pend' with [] => PShut w | _ => PTidy w end).
       { rewrite Rn_exit_main, ph_set_phase, Nat.eqb_refl. reflexivity. }
+      assert (P5 : ph (Rn s n) <> PMain -> ph (Rn (fst (exit_main c n w pend' (setR s n v))) n) <> PMain)
+        by (intros _; rewrite Ephn; destruct pend'; discriminate).
+      assert (P6 : ph (Rn (fst (exit_main c n w pend' (setR s n v))) n) = PCTidy \/
+                   rcanc (Rn (fst (exit_main c n w pend' (setR s n v))) n) = true ->
+                   (ph (Rn s n) = PCTidy \/ rcanc (Rn s n) = true) \/ cp (Jb s n) = true).
+      { apply cmode_same; [rewrite Ephn; destruct pend'; discriminate|].
+        rewrite Rn_exit_main, ph_set_phase, Nat.eqb_refl. cbn [rcanc]. rewrite Rn_setR_same. exact Hrc. }
       apply RE_actor; auto.
       + intros Hn0. apply Hr. exact Hn0.
       + rewrite Hph. discriminate.
@@ -210,13 +150,21 @@ Proof.
       rewrite Rn_exit_main, ph_set_phase. apply Nat.eqb_neq in Hmn. rewrite Hmn.
       apply Nat.eqb_neq in Hmn. rewrite Rn_setR_other by exact Hmn. apply same_but_q_refl. }
   destruct d as [|d0 d'] eqn:Ed.
-  - apply Hexit. reflexivity.
+  - apply Hexit; reflexivity.
   - rewrite <- Ed in *. clear Ed.
     destruct (existsb _ d) eqn:Ecrit; [apply Hexit; reflexivity|].
     destruct (Nat.eqb _ _) eqn:Ecnt; [apply Hexit; reflexivity|].
     cbn [fst]. set (cand := filter _ (members c n)). set (new := filter _ cand).
     destruct (Nat.eq_dec m n) as [->|Hmn].
-    + apply RE_actor; auto.
+    + match goal with |- reff c s ?S' n _ =>
+        assert (P5 : ph (Rn s n) <> PMain -> ph (Rn S' n) <> PMain)
+          by (intros H; exfalso; apply H; exact Hph);
+        assert (P6 : ph (Rn S' n) = PCTidy \/ rcanc (Rn S' n) = true ->
+                     (ph (Rn s n) = PCTidy \/ rcanc (Rn s n) = true) \/ cp (Jb s n) = true)
+          by (apply cmode_same; rewrite Rn_setR_same; cbn [ph rcanc]; fold r; unfold r;
+              [rewrite Hph; discriminate|reflexivity])
+      end.
+      apply RE_actor; auto.
       * intros Hn0. apply Hr. exact Hn0.
       * rewrite Hph. discriminate.
       * rewrite Rn_setR_same. cbn [ph]. fold r. unfold r. rewrite Hph. discriminate.
@@ -240,6 +188,11 @@ Lemma reff_end_cancelled c s s0 n m :
 Proof.
   intros E Hr Hph. destruct (Nat.eq_dec m n) as [->|Hmn].
   - destruct (Rn_end_cancelled_n c n s0) as [H1 H2].
+    assert (P5 : ph (Rn s n) <> PMain -> ph (Rn (fst (end_cancelled c n s0)) n) <> PMain)
+      by (intros _; rewrite H1; discriminate).
+    assert (P6 : ph (Rn (fst (end_cancelled c n s0)) n) = PCTidy \/ rcanc (Rn (fst (end_cancelled c n s0)) n) = true ->
+                 (ph (Rn s n) = PCTidy \/ rcanc (Rn s n) = true) \/ cp (Jb s n) = true)
+      by (apply cmode_same; [rewrite H1; discriminate|rewrite rcanc_end_cancelled, E; reflexivity]).
     apply RE_actor; auto.
     + rewrite H1. discriminate.
     + intros Hn0. right. rewrite Jb_end_cancelled. apply Nat.eqb_neq in Hn0.
@@ -254,6 +207,11 @@ Lemma reff_finish_run c s s0 n w r cu m :
 Proof.
   intros E Hr Hph. destruct (Nat.eq_dec m n) as [->|Hmn].
   - destruct (Rn_finish_run_n c n w r cu s0) as [H1 H2].
+    assert (P5 : ph (Rn s n) <> PMain -> ph (Rn (fst (finish_run c n w r cu s0)) n) <> PMain)
+      by (intros _; rewrite H1; discriminate).
+    assert (P6 : ph (Rn (fst (finish_run c n w r cu s0)) n) = PCTidy \/ rcanc (Rn (fst (finish_run c n w r cu s0)) n) = true ->
+                 (ph (Rn s n) = PCTidy \/ rcanc (Rn s n) = true) \/ cp (Jb s n) = true)
+      by (apply cmode_same; [rewrite H1; discriminate|rewrite rcanc_finish_run, E; reflexivity]).
     apply RE_actor; auto.
     + rewrite H1. discriminate.
     + intros Hn0. right. rewrite Jb_finish_run. apply Nat.eqb_neq in Hn0.
@@ -275,6 +233,14 @@ Proof.
     + assert (Ephn : ph (Rn (fst (shutdown_start c n true (set_phase s n (PShut (why_of s n))))) n)
                      = PShut (why_of s n)).
       { rewrite Rn_shutdown_start, ph_set_phase, Nat.eqb_refl. reflexivity. }
+      match goal with |- reff c s ?S' n _ =>
+        assert (P5 : ph (Rn s n) <> PMain -> ph (Rn S' n) <> PMain)
+          by (intros _; rewrite Ephn; discriminate);
+        assert (P6 : ph (Rn S' n) = PCTidy \/ rcanc (Rn S' n) = true ->
+                     (ph (Rn s n) = PCTidy \/ rcanc (Rn s n) = true) \/ cp (Jb s n) = true)
+          by (apply cmode_same; [rewrite Ephn; discriminate|
+              rewrite Rn_shutdown_start, ph_set_phase, Nat.eqb_refl; reflexivity])
+      end.
       apply RE_actor; auto.
       * intros Hn0. apply Hr. exact Hn0.
       * rewrite Hph. discriminate.
@@ -325,12 +291,11 @@ Proof.
   - destruct (run_alive_false _ _ _ (Hi eq_refl)) as (Hs & Hn & Hr).
     assert (Hr' : n <> 0 -> st (Jb s n) = Running) by (intros Hn0; apply Hr; exact Hn0).
     pose proof (sd_inline_ph _ _ Ein) as Hph.
-    assert (Hfin : reff c s (fst (finish_run c n (why_of s n) r cu s1)) m (m = n))
-      by (apply reff_finish_run; auto).
-    assert (Hcan : reff c s (fst (end_cancelled c n s1)) m (m = n))
-      by (apply reff_end_cancelled; auto).
-    destruct r; try exact Hfin.
-    destruct (end_cancelled c n s1) as [s2 mo2]. exact Hcan.
+    destruct (rcanc (Rn s n)).
+    + assert (Hcan : reff c s (fst (end_cancelled c n s1)) m (m = n))
+        by (apply reff_end_cancelled; auto).
+      destruct (end_cancelled c n s1) as [s2 mo2]. exact Hcan.
+    + apply reff_finish_run; auto.
   - apply RE_q; cbn [fst]; [rewrite Rn_hdone, E1; apply same_but_q_refl|].
     intros _. rewrite Jb_hdone. auto.
 Qed.
@@ -359,7 +324,14 @@ Proof.
     + rewrite Hph. discriminate.
   - rewrite <- Eu in *. cbn [fst].
     destruct (Nat.eq_dec m n) as [->|Hmn].
-    + apply RE_actor; auto.
+    + match goal with |- reff c s ?S' n _ =>
+        assert (P5 : ph (Rn s n) <> PMain -> ph (Rn S' n) <> PMain)
+          by (intros _; rewrite Rn_setR_same; discriminate);
+        assert (P6 : ph (Rn S' n) = PCTidy \/ rcanc (Rn S' n) = true ->
+                     (ph (Rn s n) = PCTidy \/ rcanc (Rn s n) = true) \/ cp (Jb s n) = true)
+          by (intros _; right; exact Hcp)
+      end.
+      apply RE_actor; auto.
       * rewrite Hph. discriminate.
       * rewrite Rn_setR_same. discriminate.
       * intros _. left. rewrite Rn_setR_same. cbn [ph Jb setR].
@@ -376,7 +348,14 @@ Proof.
   intros Ha [w Hph]. destruct (run_alive_true _ _ _ Ha) as (Hs & Hn & Hn0 & Hst & Hcp).
   unfold react_cancel_tidy. cbn [fst].
   destruct (Nat.eq_dec m n) as [->|Hmn].
-  - apply RE_actor; auto.
+  - match goal with |- reff c s ?S' n _ =>
+      assert (P5 : ph (Rn s n) <> PMain -> ph (Rn S' n) <> PMain)
+        by (intros _; rewrite Rn_setR_same; cbn [ph]; rewrite Rn_clear_cp, Hph; discriminate);
+      assert (P6 : ph (Rn S' n) = PCTidy \/ rcanc (Rn S' n) = true ->
+                   (ph (Rn s n) = PCTidy \/ rcanc (Rn s n) = true) \/ cp (Jb s n) = true)
+        by (intros _; right; exact Hcp)
+    end.
+    apply RE_actor; auto.
     + rewrite Hph. discriminate.
     + rewrite Rn_setR_same. cbn [ph]. rewrite Rn_clear_cp, Hph. discriminate.
     + intros _. left. rewrite Rn_setR_same. cbn [ph Jb setR]. rewrite Rn_clear_cp, Hph.
@@ -385,6 +364,39 @@ Proof.
     + rewrite Rn_setR_same. cbn [pend]. rewrite Rn_clear_cp. auto.
   - apply RE_q; [|apply neq_vac; exact Hmn].
     rewrite Rn_setR_other by exact Hmn. rewrite Rn_mapJ, Rn_clear_cp. apply same_but_q_refl.
+Qed.
+
+Lemma reff_cancel_shut c s n m :
+  (sd_inline s n = true -> run_alive c s n true = true) ->
+  reff c s (fst (react_cancel_shut c n s)) m (m = n).
+Proof.
+  intros Hi. unfold react_cancel_shut.
+  destruct (sd_inline s n) eqn:Ein.
+  - destruct (run_alive_true _ _ _ (Hi eq_refl)) as (Hs & Hn & Hn0 & Hst & Hcp).
+    pose proof (sd_inline_ph _ _ Ein) as Hph.
+    set (s0 := clear_cp s n).
+    set (v := mkRst (ph (Rn s0 n)) (pend (Rn s0 n)) (seen (Rn s0 n)) (ndone (Rn s0 n)) (qsz (Rn s0 n))
+                    (expi (Rn s0 n)) (tbeg (Rn s0 n)) (fto (Rn s0 n)) (fcr (Rn s0 n)) true).
+    assert (ER : forall k, Rn (fst (react_shut_cancel c n (setR s0 n v))) k = Rn (setR s0 n v) k) by reflexivity.
+    assert (EJ : Jb (fst (react_shut_cancel c n (setR s0 n v))) = Jb s0) by reflexivity.
+    destruct (Nat.eq_dec m n) as [->|Hmn].
+    + assert (Ephn : ph (Rn (fst (react_shut_cancel c n (setR s0 n v))) n) = ph (Rn s n)).
+      { rewrite ER, Rn_setR_same. unfold v, s0. cbn [ph]. rewrite Rn_clear_cp. reflexivity. }
+      assert (Hphs : exists w, ph (Rn s n) = PShut w).
+      { unfold sd_inline in Ein. destruct (ph (Rn s n)) as [| | |w| |]; try discriminate. exists w. reflexivity. }
+      destruct Hphs as [w Hw].
+      apply RE_actor; auto.
+      * rewrite Ephn. exact Hph.
+      * intros _. left. rewrite EJ, Ephn. destruct (st_clear_cp s n) as [B _]. unfold s0. rewrite B, Hst, Hw.
+        split; [reflexivity|]. split; discriminate.
+      * intros y. rewrite ER, Rn_setR_same. unfold v, s0. cbn [pend]. rewrite Rn_clear_cp. auto.
+      * intros _. rewrite Ephn, Hw. discriminate.
+    + apply RE_q; [|apply neq_vac; exact Hmn].
+      rewrite ER, Rn_setR_other by exact Hmn. unfold s0. rewrite Rn_clear_cp. apply same_but_q_refl.
+  - apply RE_q.
+    + cbn [fst Rn react_shut_cancel setS mapH]. unfold react_shut_cancel. cbn [fst Rn setS mapH].
+      rewrite Rn_clear_hcp. apply same_but_q_refl.
+    + intros _. unfold react_shut_cancel. cbn [fst Jb setS mapH]. rewrite Jb_clear_hcp. auto.
 Qed.
 
 Theorem R_effect lvl c s e s' :
@@ -414,12 +426,10 @@ Proof.
       * rewrite Rn_mapJ, Rn_clear_cp. apply same_but_q_refl.
       * intros ->. destruct (st_cancel_list (pend (Rn s n)) (clear_cp s n) n) as [A B].
         destruct (st_clear_cp s n) as [C D]. rewrite A, B, C, D. auto.
-    + apply RE_q; unfold react_cancel_shut, react_shut_cancel; cbn [fst Rn Jb setS mapH].
-      * destruct (sd_inline s n); [rewrite Rn_clear_cp|rewrite Rn_clear_hcp]; apply same_but_q_refl.
-      * intros ->. destruct (sd_inline s n); [apply st_clear_cp|rewrite Jb_clear_hcp; auto].
-    + apply RE_q; unfold react_cancel_shut, react_shut_cancel; cbn [fst Rn Jb setS mapH].
-      * destruct (sd_inline s n); [rewrite Rn_clear_cp|rewrite Rn_clear_hcp]; apply same_but_q_refl.
-      * intros ->. destruct (sd_inline s n); [apply st_clear_cp|rewrite Jb_clear_hcp; auto].
+    + cbn [forallb guards app outs_guards] in Hg. apply andb_true_iff in Hg. destruct Hg as [G1 _].
+      apply reff_cancel_shut. eapply sd_thread_inline; eauto.
+    + cbn [forallb guards app outs_guards] in Hg. apply andb_true_iff in Hg. destruct Hg as [G1 _].
+      apply reff_cancel_shut. eapply sd_thread_inline; eauto.
   - apply RE_q; [|intros []]. unfold react_sdstart.
     destruct (shutdown_start c n false (setH s n (mkHst HRunning false None))) as [s1 mo] eqn:E.
     assert (E1 : Rn s1 = Rn s).
